@@ -554,7 +554,30 @@ class Interp(StmtMixin, ObjMixin):
                 raise Unsupported('comprehension over symbolic-length sequence with effects')
             finally:
                 self.ctx.pure_depth -= 1
-        return SArr(arr.length, at, kind='list')
+        out = SArr(arr.length, at, kind='list')
+        # the element expression is evaluated once for a generic index right away, so that an exception
+        # it raises (for a non-empty sequence) surfaces here and not wherever an element happens to be used
+        k = self.ctx.fresh('k', z3.IntSort())
+        n = to_z3(arr.length)
+        if self.ctx.feasible(n > 0):
+            self.ctx.solver.push()
+            self.ctx.light.push()
+            saved = len(self.ctx.pc)
+            raised = None
+            try:
+                self.ctx.assume(z3.And(k >= 0, k < n))
+                at(k)
+            except PyExc as e:
+                raised = e
+            finally:
+                del self.ctx.pc[saved:]
+                self.ctx.solver.pop()
+                self.ctx.light.pop()
+            if raised is not None:
+                if not self.ctx.branch(n > 0):
+                    return out          # empty sequence: the element expression is never evaluated
+                raise raised
+        return out
 
     def e_GeneratorExp(self, node, fr):
         return self.e_ListComp(node, fr)
